@@ -612,3 +612,109 @@ Theorem failed_creation_not_openable_refuted : exists sc,
   fst (seq_run v_cur sc) = Raise /\ openable (snd (seq_run v_cur sc)) = true /\
   snd (seq_run v_cur sc) <> pre sc.
 Proof. exists sc_hang. vm_compute. split; [reflexivity|]. split; [reflexivity|discriminate]. Qed.
+
+(* ------------------------------------------------------------------ the catalog marker is atomic
+   Creation over a pre-existing valid catalog (overwrite): patch_ids.bin of the old catalog goes away
+   with the old data and the new one is written last, so at EVERY moment of EVERY execution (hence
+   also after a kill, an exception or a hang, whatever the fault and its position) a directory that
+   opens as a catalog is either the untouched pre-existing one or holds the complete input. *)
+Lemma no_ctl_in_msgs : forall a b x q, ctl x -> map Msg a = map Msg b ++ x :: q -> False.
+Proof.
+  induction a as [|a0 a IH]; intros [|b0 b] x q Hx H; simpl in H.
+  - discriminate.
+  - discriminate.
+  - injection H as E _. rewrite <- E in Hx. destruct Hx.
+  - injection H as _ H. exact (IH _ _ _ Hx H).
+Qed.
+
+Lemma Wr_openable sc s : Wr sc s -> openable (dk s) = true ->
+  dk s = pre sc \/ exists done, dk s = TDir false done true /\ snt s = map Msg done ++ Sentinel :: qu s.
+Proof.
+  unfold Wr. destruct (wp s) as [| | | |[|]].
+  - intros [].
+  - intros [_ Hd] _. left. exact Hd.
+  - intros (_ & done & Hd & _) Ho. rewrite Hd in Ho. discriminate.
+  - intros (_ & done & Hd & _) Ho. rewrite Hd in Ho. discriminate.
+  - intros (_ & _ & done & Hd & Hs) _. right. exists done. auto.
+  - intros [(Hi & Hd & _)|(_ & done & Hd & _)] Ho.
+    + rewrite Hd in *. destruct (initfail_dir sc Hi) as [E|E]; [left; exact E|]. rewrite E in Ho. discriminate.
+    + rewrite Hd in Ho. discriminate.
+Qed.
+
+Theorem openable_any_moment sc s : reach v_fix sc s -> openable (dk s) = true ->
+  dk s = pre sc \/ dk s = TDir false (input sc) true.
+Proof.
+  intros R Ho. apply inv_reach in R. destruct R as (G & I & J).
+  destruct (mp s) as [|c| |[|]| |d|] eqn:Em.
+  - left. apply I.
+  - destruct I as (_ & _ & _ & Hs & HW).
+    destruct (Wr_openable sc s HW Ho) as [E|(done & _ & Hs2)]; [left; exact E|].
+    exfalso. rewrite Hs in Hs2. exact (no_ctl_in_msgs _ _ Sentinel _ TI Hs2).
+  - destruct I as (_ & _ & Hs & HW).
+    destruct (Wr_openable sc s HW Ho) as [E|(done & _ & Hs2)]; [left; exact E|].
+    exfalso. rewrite Hs in Hs2. exact (no_ctl_in_msgs _ _ Sentinel _ TI Hs2).
+  - destruct I as (_ & (c & _ & Hs) & HW).
+    destruct (Wr_openable sc s HW Ho) as [E|(done & _ & Hs2)]; [left; exact E|].
+    exfalso. rewrite Hs in Hs2.
+    destruct (ctl_unique _ _ Abort Sentinel _ _ TI TI Hs2) as (_ & E & _). discriminate.
+  - destruct I as (_ & _ & Hs & HW).
+    destruct (Wr_openable sc s HW Ho) as [E|(done & Hd & Hs2)]; [left; exact E|].
+    right. rewrite Hs in Hs2.
+    destruct (ctl_unique _ _ Sentinel Sentinel _ _ TI TI Hs2) as (<- & _ & _). exact Hd.
+  - right. apply J.
+  - right. apply J.
+  - left. destruct I as (_ & I). exact (I Ho).
+Qed.
+
+Lemma seq_fix_dir sc : must_raise sc = false -> snd (seq_run v_fix sc) = TDir false (input sc) true.
+Proof.
+  intros Em. apply must_raise_false_iff in Em. destruct Em as (Ee & Hi & Ef & Eff & Ec).
+  unfold seq_run. rewrite Ee, init_dir_eta, Hi, Ef, Eff. simpl.
+  rewrite initok_dir by exact Hi. rewrite fold_append. simpl. rewrite Ec. reflexivity.
+Qed.
+
+Theorem openable_seq sc : openable (snd (seq_run v_fix sc)) = true ->
+  snd (seq_run v_fix sc) = pre sc \/ snd (seq_run v_fix sc) = TDir false (input sc) true.
+Proof.
+  intros Ho. destruct (must_raise sc) eqn:Em.
+  - left. apply failed_creation_not_openable_seq; [|exact Ho]. rewrite seq_fix_outcome, Em. reflexivity.
+  - right. exact (seq_fix_dir sc Em).
+Qed.
+
+(* the clause the harness evaluates on what the path holds when it is opened after the call *)
+Lemma open_spec_of sc o d :
+  (o = Raise \/ exists x, o = Return x) ->
+  ((exists x, o = Return x) -> d = TDir false (input sc) true) ->
+  (o = Raise -> openable d = true -> d = pre sc) ->
+  cl_open_exact (model_obs sc o) (held_of sc d) = true.
+Proof.
+  intros [->|[x ->]] Hr Hx; unfold held_of.
+  - destruct (openable d) eqn:Eo; [|reflexivity]. cbn [negb].
+    rewrite (Hx eq_refl eq_refl), target_eqb_refl. reflexivity.
+  - rewrite (Hr (ex_intro _ x eq_refl)). cbn [openable negb].
+    destruct (target_eqb (TDir false (input sc) true) (pre sc)); [reflexivity|].
+    unfold nlist_eqb. rewrite list_eqb_refl by apply Nat.eqb_refl. reflexivity.
+Qed.
+
+Theorem fix_meets_open_spec sc s : reach v_fix sc s -> final s = true ->
+  cl_open_exact (model_obs sc (outcome_of s)) (held_of sc (dk s)) = true.
+Proof.
+  intros R F. pose proof (inv_reach sc s R) as (_ & I & J). unfold final in F. unfold outcome_of.
+  destruct (mp s) as [| | | | |d|] eqn:Em; try discriminate; apply open_spec_of.
+  - right. eauto.
+  - intros _. apply J.
+  - discriminate.
+  - left. reflexivity.
+  - intros [x Hx]. discriminate.
+  - intros _. apply I.
+Qed.
+
+Theorem fix_meets_open_spec_seq sc :
+  cl_open_exact (model_obs sc (fst (seq_run v_fix sc))) (held_of sc (snd (seq_run v_fix sc))) = true.
+Proof.
+  apply open_spec_of.
+  - rewrite seq_fix_outcome. destruct (must_raise sc); eauto.
+  - intros [x Hx]. rewrite seq_fix_outcome in Hx. destruct (must_raise sc) eqn:Em; [discriminate|].
+    exact (seq_fix_dir sc Em).
+  - exact (failed_creation_not_openable_seq sc).
+Qed.
